@@ -96,6 +96,17 @@ def xInArith : Formula → Bool
     a == .atom "x" || b == .atom "x" || a.xInArith || b.xInArith
   | .sqrt a | .pow a _ => a.xInArith
 
+/-- a syntactic sufficient condition for "the value is 0 when the input is 0" (over ℝ, where
+    `0 / b = 0`): used to extend the Lorentz inverse law to the end point `v = 0` -/
+def vanishesAtZero : Formula → Bool
+  | .atom a => a == "x"
+  | .lit _ => false
+  | .mul a b => a.vanishesAtZero || b.vanishesAtZero
+  | .div a _ => a.vanishesAtZero
+  | .sub a b | .add a b => a.vanishesAtZero && b.vanishesAtZero
+  | .sqrt a => a.vanishesAtZero
+  | .pow a q => a.vanishesAtZero && q != 0
+
 /-- dimension inference: `cd` gives the dimension of each atom; `sub`/`add` need equal
     dimensions (what `unyt_array.__array_ufunc__` enforces up to scale) -/
 def dimOf (cd : String → Option Dim) : Formula → Option Dim
